@@ -55,6 +55,7 @@ PURE = {
     "std::convert::From::from": "from",
     "std::option::Option::map": "Option::map",
     "std::option::Option::and_then": "Option::and_then",
+    "std::option::Option::zip": "Option::zip",
     "std::option::Option::map_or": "Option::map_or",
     "std::option::Option::map_or_else": "Option::map_or_else",
     "std::option::Option::unwrap_or": "Option::unwrap_or",
@@ -926,6 +927,9 @@ class Evaluator:
                 return ("call", "clone", (self.payload(ctx, t[2][0]),))
             if m == "Option::filter" and len(t[2]) == 2:
                 return self.payload(ctx, t[2][0])
+            if m == "Option::zip" and len(t[2]) == 2:
+                # a.zip(b) is Some((x, y)) exactly when a is Some(x) and b is Some(y)
+                return ("agg", "tuple", (self.payload(ctx, t[2][0]), self.payload(ctx, t[2][1])))
             if m == "checked_sub" and len(t[2]) == 2:
                 return mk_bin("Sub", t[2][0], t[2][1])    # Some(a - b) exactly when b <= a
             if m == "checked_add" and len(t[2]) == 2:
